@@ -75,8 +75,10 @@ Parse(s) == LET hits == { n \in Nets : ParseWith(s, n).ok } IN
 
 ---------------------------------------------------------------------------
 (* strings near valid ones *)
+\* human-readable parts that extend or truncate a built-in one: a checksum computed over them is valid, the network still is not named
+NearHrps == {"exx", "e", "ertq", "er", "texx", "te", "lqq", "l", "elq", "tlqq", "tl", "exq", "lqel"}
 SegStrings ==
-  [kind : {"seg"}, hrp : AllHrps \cup {"bc", "xx"}, case : {"lower", "upper", "mixed"}, ver : {0, 1, 2, 16, 17},
+  [kind : {"seg"}, hrp : AllHrps \cup {"bc", "xx"} \cup NearHrps, case : {"lower", "upper", "mixed"}, ver : {0, 1, 2, 16, 17},
    keylen : {0, 33}, plen : {0, 1, 2, 19, 20, 21, 31, 32, 33, 40, 41}, code : {"bech", "blech"}, variant : {"plain", "m", "bad"}]
 B58Strings ==
   [kind : {"b58"}, outer : AllBytes \cup {0, 5, 111}, inner : AllBytes \cup {0}, keylen : {0, 32, 33, 34}, hashlen : {19, 20, 21}, cksum : {"ok", "bad"}]
